@@ -119,7 +119,8 @@ PROPS.update({
                       "limit no earlier than limit x timeout after the last reset. handle_fault of both transactions takes exactly the configured action "
                       "(Cancel by default; Ignore continues untouched; Suspend freezes; Abandon terminates with nothing queued). Sender handle_timeout "
                       "declares a limit fault only with the count at its limit and arms an EOF retransmission only on an expired ACK timer. "
-                      "NOT decided: receiver handle_timeout and the places where progress resets the count (process_pdu, send_naks), real time between calls.",
+                      "Receiver handle_timeout likewise (its delayed-NAK prologue abstracted by a stub). "
+                      "NOT decided: the places where progress resets the count (process_pdu, send_naks), the delayed-NAK prologue, real time between calls.",
         "level_note": VERUS_NOTE + "Time model assumed: Instant/Duration as integer nanoseconds, Instant + Duration mathematical (std panics only after ~584 years), "
                       "duration_since saturating, Instant::now() arbitrary. Configuration assumptions never checked by the code: timeout > 0 (else update loops forever), "
                       "limit < u32::MAX.",
@@ -133,8 +134,10 @@ PROPS.update({
         "level_text": "Partial, proof: while state = Suspended has_pdu_to_send() never offers a PDU that send_pdu's dispatch would emit as metadata, file "
                       "data, EOF (sender) or NAK, Finished (receiver); suspend() freezes every counter the transaction uses and a paused counter never "
                       "counts an expiration however long it stays paused, so sender handle_timeout changes nothing and until_timeout() is maximal; "
-                      "resume() restarts the periods from the clock (paused time is not counted). NOT decided: that the transfer then completes as an "
-                      "unsuspended one (= C02, liveness), the dispatch inside send_pdu itself (Permit plumbing), receiver handle_timeout.",
+                      "resume() restarts the periods from the clock (paused time is not counted); send_pdu of both transactions, called under the daemon's "
+                      "has_pdu_to_send() guard, reaches an emitter of a listed PDU kind only un-suspended (the emitters' preconditions), and a frozen "
+                      "receiver handle_timeout declares no fault and re-arms nothing. NOT decided: that the transfer then completes as an unsuspended "
+                      "one (= C02, liveness); send_naks/send_metadata bodies (stubs).",
         "level_note": VERUS_NOTE + "The daemon loop calls send_pdu only under has_pdu_to_send() (lib.rs select! guard, async, not verified).",
     },
     "C20": {
@@ -146,8 +149,10 @@ PROPS.update({
         "design_ref": "DESIGN.md 4/C20",
         "level_text": "Partial, proof: Segments::merge returns exactly the number of newly held distinct bytes (cardinality lemma), get_progress() of both "
                       "transactions returns the stored figure, and every Fault/Abandon/Resumed indication built in the verified functions carries that "
-                      "figure (obligation on each send_indication call site). NOT decided here: keep-alive PDUs (answer_prompt), the accumulation in "
-                      "store_file_data and get_file_segment (see the evidence for whether those units are included in this run).",
+                      "figure (obligation on each send_indication call site), as does the keep-alive PDU built by answer_prompt; store_file_data keeps "
+                      "received_file_size == byte count of the run list (adds exactly the PDU's range; assumes offset+length < 2^64), get_file_segment "
+                      "sets the sender's progress to max(progress, end of the bytes read) only on first-pass reads, never on retransmissions. "
+                      "NOT decided: that progress never exceeds the file size (relative to the assumed file contracts only).",
         "level_note": VERUS_NOTE,
     },
 })
